@@ -223,7 +223,7 @@ package service
 //@   trace[C05,one-dial] atmost 1 transport.StreamDialer.DialStream
 
 //@ func proxyConnection
-//@   props C02 C05 C15 C18
+//@   props C02 C05 C11 C15 C18
 //@   requires l != nil && ctx != nil && dialer != nil && clientConn != nil
 //@   trace[C05,dials-only-through-given-dialer] each transport.StreamDialer.DialStream satisfies $recv == dialer
 //@   trace[C02,client-fin-only-after-target-eof] before io.Copy transport.StreamConn.CloseWrite
@@ -235,6 +235,7 @@ package service
 //@   trace[C02,target-closed-at-end] exactly 1 transport.StreamConn.Close when evres("transport.StreamDialer.DialStream", 1) == nil
 //@   trace[C02,one-relay-goroutine] exactly 1 go:service.proxyConnection$1 when evres("transport.StreamDialer.DialStream", 1) == nil
 //@   trace[C05,one-dial] exactly 1 transport.StreamDialer.DialStream
+//@   trace[C11,context-only-for-dialing] each transport.StreamDialer.DialStream satisfies $arg0 == ctx
 
 // client-to-target direction of the relay
 //@ func proxyConnection$1
@@ -285,15 +286,28 @@ package service
 //@   abstract
 //@   params ctx conn
 
+// StreamServe: keeps accepting until the listener is closed, counts every handler before starting
+// it, closes no connection itself, and returns only after every handler has returned.
 //@ func StreamServe
 //@   props C11 C18
 //@   requires accept != nil && handle != nil
+//@   trace[C11,waits-for-handlers] exactly 1 wg.Wait
+//@   trace[C18,waits-for-handlers] exactly 1 wg.Wait
+//@   trace[C11,handler-counted-before-start] loop 1 before wg.Add go:service.StreamServe$1
+//@   trace[C11,one-handler-per-connection] loop 1 atmost 1 go:service.StreamServe$1
+//@   trace[C11,serve-loop-closes-no-connection] never transport.StreamConn.Close*
 
 //@ func StreamServe$1
-//@   props C18
+//@   props C11 C18
 //@   goroutine
 //@   must-recover
 //@   requires clientConn != nil && handle != nil
+//@   trace[C11,handled-once] exactly 1 service.StreamServe.handle
+//@   trace[C11,handles-its-own-connection] each service.StreamServe.handle satisfies $arg1 == clientConn
+//@   trace[C18,connection-closed-after-handling] before service.StreamServe.handle transport.StreamConn.Close
+//@   trace[C18,connection-closed-once] exactly 1 transport.StreamConn.Close
+//@   trace[C11,done-after-close] before transport.StreamConn.Close wg.Done
+//@   trace[C18,done-once] exactly 1 wg.Done
 
 // ---------------------------------------------------------------------------
 // Key list (C01, C18, C19)
@@ -741,11 +755,14 @@ package service
 //@ pred chaninv_readCh(v readRequest) := v.respCh != nil && !closed(v.respCh)
 //@ pred chaninv_service_virtualPacketConn_readCh(v readRequest) := v.respCh != nil && !closed(v.respCh)
 //@ func (*multiPacketListener).Acquire$1
-//@   props C12 C18 C19
+//@   props C11 C12 C18 C19
 //@   goroutine
 //@   acquires-level 0
 //@   requires pc != nil && readCh != nil && doneCh != nil
 //@   trace[C12,one-answer-per-datagram] loop 1 atmost 1 send
+//@   trace[C11,C12,request-taken-only-with-a-datagram-in-hand] loop 1 before net.PacketConn.ReadFrom recv
+//@   trace[C12,one-socket-read-per-iteration] loop 1 exactly 1 net.PacketConn.ReadFrom
+//@   trace[C12,reads-its-own-socket] loop 1 each net.PacketConn.ReadFrom satisfies $recv == pc
 
 // close function of one packet handle (same ownership argument as for streams)
 //@ func (*multiPacketListener).Acquire$2
